@@ -94,11 +94,14 @@ def estimateZ0(zm, ws, wd, ustar, mo_len, half_wd_win=22):
 
     z0med = np.zeros_like(z0) + np.nan
     for kk in range(0, 360):
+        # unwrap the directions that the window reaches across north
         wd_wrapped = wd.copy()
-        if kk < 90:
-            wd_wrapped[wd > 270] = wd[wd > 270] - 360
-        elif kk > 270:
-            wd_wrapped[wd < 90] = wd[wd < 90] + 360
+        if kk - half_wd_win < 0:
+            below = wd >= kk - half_wd_win + 360
+            wd_wrapped[below] = wd[below] - 360
+        if kk + 1 + half_wd_win > 360:
+            above = wd < kk + 1 + half_wd_win - 360
+            wd_wrapped[above] = wd[above] + 360
         idx1 = np.logical_and(wd >= kk, wd < (kk + 1))
         idx2 = np.logical_and(
             wd_wrapped >= (kk - half_wd_win), wd_wrapped < (kk + 1 + half_wd_win)
